@@ -122,12 +122,21 @@ partial def toF : SExp → Option DS.Frag.F
   | .list [.atom "i", .atom n] => n.toInt?.map .lit
   | .list [.atom "bin", .atom op, a, b] => do pure (.bin (← parseBin op) (← toF a) (← toF b))
   | .list [.atom "neg", a] => (toF a).map .neg
+  | .list [.atom "pos", a] => (toF a).map .pos
+  | .list [.atom "f", .atom bits] => (floatOfBitsHex bits).map .flt
+  | .list [.atom "s", h] => (hexAtom h).map .str
+  | .atom "n" => some .nul
   | .list [.atom "tern", c, a, b] => do pure (.tern (← toF c) (← toF a) (← toF b))
   | .list [.atom "or", a, b] => do pure (.lor (← toF a) (← toF b))
   | .list [.atom "and", a, b] => do pure (.land (← toF a) (← toF b))
   | .list [.atom "var", h] => (hexAtom h).map (fun s => .var s 0 0)
   | .list [.atom "asg", h, a] => do pure (.asg (← hexAtom h) (← toF a))
   | _ => none
+
+/-- Go's %x: no leading zeros (a single 0 for zero) -/
+def trimHex (s : String) : String :=
+  let t := (s.toList.dropWhile (· == '0'))
+  if t.isEmpty then "0" else String.ofList t
 
 def binTok : BinOp → String
   | .add => "add" | .sub => "sub" | .mul => "mul" | .div => "div" | .mod => "mod" | .pow => "pow"
@@ -138,6 +147,10 @@ def instrTok : Instr → String
   | .pushInt i => s!"push.int=i{i}"
   | .bin op => binTok op
   | .neg => "neg"
+  | .pos => "pos"
+  | .pushFlt x => "push.flt=f" ++ trimHex (natToHex x.toBits.toNat 16)
+  | .pushStr x => "push.str=s" ++ hx x
+  | .pushNull => "push.null"
   | .jne (some o) => s!"jne=i{o}"
   | .jmp (some o) => s!"jmp=i{o}"
   | .jeDup (some o) => s!"je.dup=i{o}"
